@@ -295,15 +295,76 @@ type errException struct {
 	Reason string
 }
 
+// errExceptionProg gives matchErrException access to the callers of a
+// function: an exception recorded for a function also covers an unexported
+// helper whose only callers are that function (the excepted statement was moved
+// into a helper, its context is unchanged).
+var errExceptionProg *Prog
+
+var staticCallerIndex = map[*Prog]map[*ssa.Function]map[*ssa.Function]bool{}
+
+func staticCallersOf(p *Prog, fn *ssa.Function) map[*ssa.Function]bool {
+	idx := staticCallerIndex[p]
+	if idx == nil {
+		idx = map[*ssa.Function]map[*ssa.Function]bool{}
+		for _, g := range p.ModuleSSAFuncs() {
+			top := g
+			for top.Parent() != nil {
+				top = top.Parent()
+			}
+			allCalls(g, false, func(_ *ssa.Function, call ssa.CallInstruction) {
+				if sc := call.Common().StaticCallee(); sc != nil {
+					o := originFn(sc)
+					if idx[o] == nil {
+						idx[o] = map[*ssa.Function]bool{}
+					}
+					idx[o][originFn(top)] = true
+				}
+			})
+		}
+		staticCallerIndex[p] = idx
+	}
+	return idx[originFn(fn)]
+}
+
+func errFnMatches(pattern string, fn *ssa.Function, depth int) bool {
+	fk := FuncKey(fn)
+	bk := baseFuncKey(fn)
+	if pattern == "*" || pattern == fk || pattern == bk || (strings.HasSuffix(pattern, "*") && strings.HasPrefix(fk, strings.TrimSuffix(pattern, "*"))) {
+		return true
+	}
+	if errExceptionProg == nil || depth >= 2 {
+		return false
+	}
+	top := fn
+	for top.Parent() != nil {
+		top = top.Parent()
+	}
+	if top.Object() == nil || top.Object().Exported() {
+		return false
+	}
+	callers := staticCallersOf(errExceptionProg, top)
+	if len(callers) == 0 {
+		return false
+	}
+	for g := range callers {
+		if g == originFn(top) {
+			continue
+		}
+		if !errFnMatches(pattern, g, depth+1) {
+			return false
+		}
+	}
+	return true
+}
+
 func matchErrException(tbl []errException, s ErrSite) *errException {
-	fk := FuncKey(s.Fn)
-	bk := baseFuncKey(s.Fn)
 	for i := range tbl {
 		x := &tbl[i]
 		if x.Kind != "*" && x.Kind != s.Kind {
 			continue
 		}
-		if x.Fn != "*" && x.Fn != fk && x.Fn != bk && !(strings.HasSuffix(x.Fn, "*") && strings.HasPrefix(fk, strings.TrimSuffix(x.Fn, "*"))) {
+		if !errFnMatches(x.Fn, s.Fn, 0) {
 			continue
 		}
 		if x.Callee != "*" && x.Callee != s.Callee && !(strings.HasSuffix(x.Callee, "*") && strings.HasPrefix(s.Callee, strings.TrimSuffix(x.Callee, "*"))) {
@@ -318,6 +379,7 @@ func matchErrException(tbl []errException, s ErrSite) *errException {
 // inScope and the sources selected by isSource.
 func runErrRule(c *Ctx, rule string, inScope func(*ssa.Function) bool, isSource func(ErrSite) bool, exceptions []errException) (sites, sources int) {
 	used := map[*errException]int{}
+	errExceptionProg = c.P
 	for _, fn := range c.P.ModuleSSAFuncs() {
 		if fn.Origin() != nil {
 			continue // analyse generic bodies once (the origin)
